@@ -25,7 +25,7 @@ ASSUMPTIONS = [
     "input_value is a price field (or volume where a zero input is meaningful); ROC/STOCH/KC/Supertrend are not fed volume",
     "Supertrend long/short are checked as the union 'exactly one present' (alternation is their meaning)",
 ]
-DEGENERATE = ["flat", "flat_runs", "plateau", "trend_up", "trend_down", "zero_vol", "flat_start", "mono_start", "equal_vol"]
+DEGENERATE = ["flat", "flat_runs", "plateau", "trend_up", "trend_down", "zero_vol", "zero_vol_start", "flat_start", "mono_start", "equal_vol"]
 
 
 def plan(tier):
